@@ -80,7 +80,9 @@ Eval(e, x, st, failAt) ==
          LET c == st.calls + 1
              st2 == [st EXCEPT !.pos = st.pos + 1, !.calls = c,
                      !.log = Append(st.log, [id |-> e.id, inp |-> x, at |-> st.pos])]
-         IN IF c = failAt THEN Err(st2, <<[s |-> "leaf", i |-> e.id]>>)
+         \* an EMPTY population: the selector is still the one to say so (its error, after it was
+         \* consulted) - the Select wrapper adds no behaviour of its own
+         IN IF c = failAt \/ Len(x.xs) = 0 THEN Err(st2, <<[s |-> "leaf", i |-> e.id]>>)
             ELSE Ok(st2, x.xs[(st.pos % Len(x.xs)) + 1])      \* a member, as is
     [] e.op = "ext" -> Ok(st, x.g)
     [] e.op = "scorer" ->
@@ -123,7 +125,7 @@ OutShape(e, s) ==
   ELSE CASE e.op = "leaf" -> SA
          [] e.op = "id" -> s
          [] e.op = "const" -> SA
-         [] e.op = "sel" -> IF s.k = "l" /\ s.n > 0 THEN s.e ELSE Bad
+         [] e.op = "sel" -> IF s.k = "l" THEN s.e ELSE Bad
          [] e.op = "ext" -> IF s.k = "ind" THEN s.g ELSE Bad
          [] e.op = "scorer" ->
               IF s.k # "l" THEN Bad
